@@ -103,10 +103,14 @@ _BUILTIN = {}
 
 def builtin_tables():
     if not _BUILTIN:
-        from pylatexenc.latexencode import get_builtin_uni2latex_dict
-        from pylatexenc.latexencode import _uni2latexmap_xml
-        _BUILTIN['defaults'] = dict(get_builtin_uni2latex_dict())
-        _BUILTIN['unicode-xml'] = dict(_uni2latexmap_xml.uni2latex)
+        from pylatexenc.latexencode import get_builtin_conversion_rules, RULE_DICT
+        for name in ('defaults', 'unicode-xml'):
+            t = {}
+            for rule in get_builtin_conversion_rules(name):
+                if rule.rule_type == RULE_DICT:
+                    for k, v in rule.rule.items():
+                        t.setdefault(k, v)
+            _BUILTIN[name] = t
     return _BUILTIN
 
 
@@ -152,6 +156,9 @@ def build_rules(descs):
     return out
 
 
+_POLICY_SAW = {}
+
+
 def make_encoder(cfg, cls=None, string_class=None):
     from pylatexenc.latexencode import UnicodeToLatexEncoder
     kw = dict(conversion_rules=build_rules(cfg['rules']),
@@ -175,7 +182,10 @@ def make_encoder(cfg, cls=None, string_class=None):
     if string_class is not None:
         kw['latex_string_class'] = string_class
     enc = (cls or UnicodeToLatexEncoder)(**kw)
-    enc._pv_policy_saw = seen
+    _POLICY_SAW[id(enc)] = (enc, seen)       # (nothing is attached to the library's object)
+    if len(_POLICY_SAW) > 64:
+        _POLICY_SAW.clear()
+        _POLICY_SAW[id(enc)] = (enc, seen)
     return enc
 
 
@@ -205,15 +215,23 @@ def nontrivial(s, cfg):
 
 
 def compare_chunks(got, want):
-    if len(got) != len(want):
+    """the concatenated result is what the statement is about; how the encoder slices it into
+    += operations on the result object is its own business.  Chunks described by a predicate
+    (output of the 'replace' / 'unihex' policies) become a pattern."""
+    try:
+        text = ''.join(got)
+    except TypeError:
         return False
-    for g, w in zip(got, want):
+    pat = ''
+    for w in want:
         if isinstance(w, M.Pred):
-            if not w.matches(g):
-                return False
-        elif g != w:
-            return False
-    return True
+            if w.what == 'replace':
+                pat += r'[\x00-\x7f]*?\?[\x00-\x7f]*?'
+            else:
+                pat += r'[\x00-\x7f]*?(?i:U\+%04X)[\x00-\x7f]*?' % ord(w.ch)
+        else:
+            pat += re.escape(w)
+    return re.fullmatch(pat, text, re.DOTALL) is not None
 
 
 def check_pair(s, cfg, res, case):
@@ -235,9 +253,10 @@ def check_pair(s, cfg, res, case):
                     pass
             r = enc.unicode_to_latex(s)
             results[label] = ('ok', r.chunks if sc else r)
-            if enc._pv_policy_saw and any(o is not enc for o in enc._pv_policy_saw):
+            saw = _POLICY_SAW.get(id(enc), (None, None))[1]
+            if saw and any(o is not enc for o in saw):
                 res.fail('c04:policy-callable-got-wrong-u2lobj', 'the unknown_char_policy callable '
-                         'was given %r as u2lobj' % (enc._pv_policy_saw[:1],), case)
+                         'was given %r as u2lobj' % (saw[:1],), case)
                 return
         except ValueError as e:
             results[label] = ('ValueError', e)
@@ -264,11 +283,7 @@ def check_pair(s, cfg, res, case):
     got_str = results['str'][1]
     if not compare_chunks(got_chunks, want):
         # locate the first differing chunk for the bucket key
-        which = 'length'
-        for g, w in zip(got_chunks, want):
-            if (isinstance(w, M.Pred) and not w.matches(g)) or (not isinstance(w, M.Pred) and g != w):
-                which = 'unknown-policy' if isinstance(w, M.Pred) else 'chunk'
-                break
+        which = 'unknown-policy' if any(isinstance(w, M.Pred) for w in want) else 'chunk'
         res.fail('c04:chunks-differ:%s:%s' % (which, cfg['policy'] if which != 'chunk' else
                                               'prot=%s' % cfg['protection']),
                  'input %r: encoder chunks %r, documented rule semantics give %r'
